@@ -567,6 +567,10 @@ class Interp:
                     raise Raised('TypeError')
                 return res if isinstance(op, ast.In) else not res
             return None
+        if isinstance(op, (ast.Eq, ast.NotEq)) and isinstance(l, Sym) and isinstance(r, Sym) and (l.attrs.get('__type__') or r.attrs.get('__type__')) and \
+                l.text in _TYPE_NAMES and r.text in _TYPE_NAMES:
+            # type(x) == list
+            return (l.text == r.text) if isinstance(op, ast.Eq) else (l.text != r.text)
         if is_concrete(l) and is_concrete(r):
             try:
                 res = {ast.Eq: lambda: l == r, ast.NotEq: lambda: l != r, ast.Lt: lambda: l < r, ast.LtE: lambda: l <= r,
@@ -707,7 +711,19 @@ class Interp:
                 return Sym('{%s: %s for %s in %s}' % (show(k), show(v), ast.unparse(g.target), show(itv)), struct=('dictcomp', k, v, itv, ast.unparse(g.target)))
             return out
         if isinstance(e, ast.JoinedStr):
-            return Sym('f-string', truth=True)
+            parts = []
+            for v in e.values:
+                if isinstance(v, ast.Constant) and isinstance(v.value, str):
+                    parts.append(v.value)
+                elif isinstance(v, ast.FormattedValue) and v.conversion == -1 and v.format_spec is None:
+                    x = self.ev(v.value, env)
+                    if isinstance(x, (int, str)) and not isinstance(x, bool):
+                        parts.append(str(x))
+                    else:
+                        return Sym('f-string', truth=True)
+                else:
+                    return Sym('f-string', truth=True)
+            return ''.join(parts)
         if isinstance(e, ast.Lambda):
             fn = ast.FunctionDef(name='<lambda>', args=e.args, body=[ast.Return(value=e.body)], decorator_list=[])
             return FuncRef('<lambda>', node=fn, mod=self.mod, env=env)
@@ -775,7 +791,37 @@ class Interp:
         cl = m.classes.get(nm)
         if cl is not None:
             return Sym(nm, truth=True, attrs={'__class__': cl})
-        return None
+        return self.module_constant(nm)
+
+    _MUTATING = ('append', 'extend', 'insert', 'pop', 'remove', 'clear', 'sort', 'reverse', 'update', 'setdefault', 'popitem', 'add', 'discard')
+
+    def module_constant(self, nm):
+        """a module-level table: a name bound once, at module level, to a non-empty display (tuple / list / dict) that no statement of the
+        module stores into or mutates through a method; evaluated in module scope.  A fresh copy for every use."""
+        cache = self.__dict__.setdefault('_modconst', {})
+        if nm not in cache:
+            cache[nm] = None
+            vals = self.mod.toplevel.get(nm) or []
+            if len(vals) == 1 and isinstance(vals[0], (ast.Tuple, ast.List, ast.Dict)) and (getattr(vals[0], 'elts', None) or getattr(vals[0], 'keys', None)):
+                ok = True
+                for n in ast.walk(self.mod.tree):
+                    if isinstance(n, ast.Subscript) and isinstance(n.ctx, (ast.Store, ast.Del)) and isinstance(n.value, ast.Name) and n.value.id == nm:
+                        ok = False
+                    elif isinstance(n, ast.Call) and isinstance(n.func, ast.Attribute) and isinstance(n.func.value, ast.Name) and n.func.value.id == nm and n.func.attr in self._MUTATING:
+                        ok = False
+                    elif isinstance(n, ast.Global) and nm in n.names:
+                        ok = False
+                    elif isinstance(n, ast.AugAssign) and isinstance(n.target, ast.Name) and n.target.id == nm:
+                        ok = False
+                if ok:
+                    cache[nm] = vals[0]
+        node = cache[nm]
+        if node is None:
+            return None
+        try:
+            return self.ev(node, Env({}, None))
+        except Undecidable:
+            return None
 
     def attribute(self, base, attr, node):
         if self.attr_hook is not None:
@@ -979,6 +1025,10 @@ class _Method:
                 o.insert(args[0], args[1])
                 return None
             if n == 'pop':
+                if args and not (isinstance(args[0], int) and not isinstance(args[0], bool)):
+                    if is_concrete(args[0]):
+                        raise Raised('TypeError')
+                    raise Undecidable('list.pop at a symbolic position')
                 try:
                     return o.pop(*args)
                 except IndexError:
@@ -1155,7 +1205,30 @@ def _b_callable(it, args, kw):
 _OPERATOR = {'operator.mul': ast.Mult, 'operator.add': ast.Add, 'operator.sub': ast.Sub, 'operator.truediv': ast.Div, 'operator.floordiv': ast.FloorDiv,
              'operator.pow': ast.Pow, 'operator.mod': ast.Mod}
 
+_TYPE_NAMES = ('list', 'tuple', 'dict', 'str', 'int', 'float', 'bool', 'NoneType')
+
+
+def _b_type(it, args, kw):
+    v = args[0]
+    if len(args) == 1 and isinstance(v, Sym) and v.attrs.get('__pytype__') in _TYPE_NAMES:
+        return Sym(v.attrs['__pytype__'], truth=True, attrs={'__type__': True})
+    if len(args) == 1 and (is_concrete(v) or isinstance(v, (list, tuple, dict))) and type(v).__name__ in _TYPE_NAMES:
+        return Sym(type(v).__name__, truth=True, attrs={'__type__': True})
+    return Sym('type(%s)' % show(v), truth=True)
+
+
+def _b_getattr(it, args, kw):
+    if len(args) == 2 and isinstance(args[1], str):
+        try:
+            return it.attribute(args[0], args[1], None)
+        except Undecidable:
+            pass
+    it.path.events.append(('call', 'getattr', tuple(args), dict(kw)))
+    return Sym('getattr(%s)' % ', '.join(show(a) for a in args), struct=('call', 'getattr', tuple(args), dict(kw)))
+
+
 _BUILTIN_FUNCS = {
+    'type': _b_type, 'getattr': _b_getattr,
     'len': _b_len, 'range': _b_range, 'slice': _b_slice, 'next': _b_next, 'iter': _b_iter, 'tuple': _b_seq(tuple), 'list': _b_seq(list), 'dict': _b_dict, 'enumerate': _b_enumerate,
     'zip': _b_zip, 'map': _b_map, 'min': _b_minmax(min), 'max': _b_minmax(max), 'isinstance': _b_isinstance, 'int': _b_conv(int),
     'float': _b_conv(float), 'str': _b_conv(str), 'bool': _b_conv(bool), 'sorted': _b_sorted, 'sum': _b_sum, 'callable': _b_callable,
